@@ -612,6 +612,7 @@ func init() {
 		rule:    "each evaluation is one real filter with zmodem enabled, a scripted remote rz/sz (start header within one read, optionally accompanied by a cancel sequence or 'cannot open'; then finishes, cancels early or late, keeps sending, or goes quiet) and a scripted local helper behind the os/exec substitute (normal, exits non-zero, exits at once, never writes, writes late, missing from PATH), upload with and without files to send, download, optional Ctrl-C early or late; all timers (100 ms start delay, 500 ms quiet timer, 20 s timeouts) run on the fake clock; oracles: matching helper and directory, started at most once, traffic bridged both ways in clean sessions, server told to cancel whenever the session did not complete, a silent helper cancelled or killed, vetoed headers start nothing and are shown, and after 26 s typed input reaches the server and a printed probe reaches the terminal; non-trivial = all of that evaluated; distinct = distinct (case class, schedule-trace hash, tape hash)"})
 	reg(&propDef{id: "C18", level: "exploration", crashIsViol: false, stuckIsViol: true,
 		batches: []batch{{name: "pauses", quick: 2400, thorough: 60000},
+			{name: "pauseread", params: map[string]string{"pauseread": "1"}, quick: 1500, thorough: 40000},
 			{name: "enumerated", quick: 4, thorough: 120, enumKinds: 6, enumPos: 1, enumBases: 120}},
 		rule:    "each evaluation is one simulated transfer (protocol 3 or 4, T in {2,5,20} s) paused 1-3 times at tape-chosen messages by Ctrl-C and continued through the real prompt after a think time of 0.02T..3T; non-trivial = at least one pause/continue cycle completed and the outcome rules (short pause => success with identical files; long pause => success or error, never a hang or a wrong file) and the no-data-while-paused monitor were evaluated; distinct = distinct (configuration + pause band + cycles, schedule-trace hash, tape hash)"})
 	reg(&propDef{id: "C03", level: "exploration", crashIsViol: true,
@@ -1178,6 +1179,10 @@ func main() {
 	if pd.crashIsViol {
 		for _, r := range crashes {
 			addViol(r)
+		}
+	} else {
+		for _, r := range crashes {
+			fmt.Fprintf(os.Stderr, "note: run idx=%d batch=%s ended in a crash of the worker (crashes are decided by C12, not by this property): %s: %s\n", r.Idx, r.Batch, r.Sig, r.Msg)
 		}
 	}
 	if (pd.crashIsViol || pd.stuckIsViol) && len(stuck) > 0 {
